@@ -24,8 +24,9 @@ MANIFEST = dict(
          "order, and dyadic points built in the relative interior of every simplex of every dimension under scales, matrices, "
          "offsets and the Coxeter matrix; cartesian_coordinates and barycenter are compared exactly.",
     note="Trusted: Coq kernel, extraction + OCaml driver, the hand transcription (validated by the differential run), g++/Eigen. "
-         "Coface_iterator's model draws the ordered set partitions from the set-level enumeration `osp`; the state machine "
-         "`osp_iter` is proved to enumerate that set only for n <= 5 (by computation) and compared with the C++ for n <= 6. "
+         "The inductive coface theorems speak about a set-level enumeration (`cofaces`, `osp`); that the transcribed state machines "
+         "(`cofaces_iter`: odometer with reinitialize(); `osp_iter`) enumerate the same sets is proved by computation only "
+         "(ambient dimension <= 5 resp. n <= 5, bound in the statement) and checked on every compared line beyond. "
          "The 1e-9 tolerance of locate_point is replaced by exact comparison on inputs whose fractional parts are equal or "
          ">= 2^-24 apart; on numerically unstable inputs (integer coordinates through a QR solve, 2^-40 perturbations) only "
          "containment within 1e-9 is required.  The Coxeter matrix itself (eigen-decomposition) is not modelled: points are "
